@@ -40,7 +40,8 @@ opt-level = 1
     lock = os.path.join(wd, "Cargo.lock")
     if not os.path.exists(lock):
         shutil.copy(os.path.join(repo, "Cargo.lock"), lock)
-    env = dict(os.environ, CARGO_NET_OFFLINE="true", CARGO_TARGET_DIR=os.path.join(verif, "work", "replay-target"))
+    # one target directory per repository path: concurrent checks against different trees must not share a binary
+    env = dict(os.environ, CARGO_NET_OFFLINE="true", CARGO_TARGET_DIR=os.path.join(verif, "work", f"replay-target-{key}"))
     cmd = ["cargo", "build", "--release", "--offline", "-q"] + (["--features", "physics"] if physics else [])
     r = subprocess.run(cmd, cwd=wd, env=env, capture_output=True, text=True, timeout=1800)
     if r.returncode != 0:
